@@ -21,7 +21,8 @@ import (
 // buffered in the flate writer are lost).
 // Child-process use: GTS_VERIF_FAULT=<point>:<hit>:<action> makes the process
 // SIGKILL itself at that point. Actions: kill | tear:<K> (write only the
-// first K bytes of the final header, then kill; only at point pre-header).
+// first K bytes of the final header, then kill; only at point pre-header) |
+// term | int (SIGTERM / SIGINT to itself instead, which a program may catch).
 
 // VerifCrash is the sentinel panic value of an injected in-process crash.
 type VerifCrash struct {
@@ -76,6 +77,14 @@ func verifPoint(name string, f *os.File, hd *Header) {
 	if inproc {
 		panic(VerifCrash{name, hit})
 	}
-	syscall.Kill(os.Getpid(), syscall.SIGKILL)
+	switch action {
+	case "term":
+		// a signal the program may catch: what it does then is its own.
+		syscall.Kill(os.Getpid(), syscall.SIGTERM)
+	case "int":
+		syscall.Kill(os.Getpid(), syscall.SIGINT)
+	default:
+		syscall.Kill(os.Getpid(), syscall.SIGKILL)
+	}
 	select {}
 }
